@@ -122,7 +122,11 @@ theorem processOpT_fields {v : Variant} {cfg : TCfg} (P : TState → Prop)
       split at he
       · cases he
       · cases he; exact hcongr _ _ h rfl rfl rfl
-    | tryDumpBlobIndexes => cases he; exact hr _ h
+    | tryDumpBlobIndexes =>
+      simp only at he
+      split at he
+      · cases he; exact hr _ h
+      · cases he; exact hdefer _ (hr _ h)
     | tryFsyncData =>
       cases he
       unfold tryRunFsyncT
@@ -418,7 +422,13 @@ theorem erase_processOpT (v : Variant) (cfg : TCfg) (s : TState) (t : OpType) (p
     | restoreActiveBlob =>
       simp only [bind, Except.bind]
       cases s.store.restoreActive <;> rfl
-    | tryDumpBlobIndexes => simp only [Except.map, (erase_tryRunDumpT s).1]
+    | tryDumpBlobIndexes =>
+      simp only
+      have h2 := erase_tryRunDumpT s
+      rw [← h2.2]
+      split
+      · simp only [Except.map, h2.1]
+      · simp only [Except.map, erase_deferDumpT, h2.1]
     | tryFsyncData => simp only [Except.map, erase_tryRunFsyncT s]
     | tryUpdateActiveBlob =>
       simp only
